@@ -184,6 +184,7 @@ inductive Ty where
   | callable (has : Bool) (ts : List Ty) (hasR : Bool) (ret : Ty) (hasB : Bool) (blk : Ty)
   | runtime (rt name : Bytes) (pat : Option Bytes)   -- `Runtime['rt', 'name', Regexp[/pat/]]`
   | struct (es : List (Bytes × Bool × Ty))      -- `Struct[{…}]`: per member its name, "the key is Optional[name]", the value type
+  | init (has : Bool) (t : Ty)                  -- `Init` (`has = false`) / `Init[T]` (no arguments: they are values)
   deriving Inhabited
 
 def Ty.isAny : Ty → Bool
@@ -215,6 +216,7 @@ def Ty.name : Ty → Bytes
   | .callable _ _ _ _ _ _ => [0x43, 0x61, 0x6c, 0x6c, 0x61, 0x62, 0x6c, 0x65]
   | .runtime _ _ _ => [0x52, 0x75, 0x6e, 0x74, 0x69, 0x6d, 0x65]
   | .struct _ => [0x53, 0x74, 0x72, 0x75, 0x63, 0x74]
+  | .init _ _ => [0x49, 0x6e, 0x69, 0x74]
 
 /-- `utils.ContainsAllStrings(a, b)`: every member of `b` occurs in `a` -/
 def containsAll (a b : List Bytes) : Bool := b.all fun s => a.contains s
@@ -348,6 +350,8 @@ def tyKey : Ty → Bytes
   -- `StructType.Parameters()` is ONE hash; `appendTypeParamKey` (/repo fix 61b915c) writes byte 2, the number of entries, then
   -- per entry its key as an element key, byte 3, the value type as an element key; nothing for the default Struct
   | .struct es => [1, 0x74] ++ ekStr (Ty.struct es).name ++ (if es.isEmpty then [] else 2 :: (ekInt es.length ++ tyKeyS es))
+  -- `InitType.Parameters()` without arguments: the type if there is one
+  | .init h t => [1, 0x74] ++ ekStr (Ty.init h t).name ++ (if h then frame (tyKey t) else [])
   | .runtime rt n p => [1, 0x74] ++ ekStr (Ty.runtime rt n p).name ++
       (if (rt.isEmpty ∧ n.isEmpty) ∧ p.isNone then []
        else ekStr rt ++ ((if n.isEmpty ∧ p.isNone then [] else ekStr n) ++ (match p with | none => [] | some p => frame (rxTyKey p))))
@@ -413,6 +417,7 @@ def tyEq : Ty → Ty → Bool
       | _ => false
   | .runtime rt n p, b => match b with | .runtime rt' n' p' => rt == rt' && n == n' && p == p' | _ => false
   | .struct es, b => match b with | .struct fs => es.length == fs.length && tyEqS es fs | _ => false
+  | .init h t, b => match b with | .init h' u => h == h' && (!h || tyEq t u) | _ => false
 termination_by structural a => a
 /-- `b.Equals(a)` (the argument receives the call), by recursion on `a` -/
 def tyEqR : Ty → Ty → Bool
@@ -458,6 +463,7 @@ def tyEqR : Ty → Ty → Bool
       | _ => false
   | .runtime rt n p, b => match b with | .runtime rt' n' p' => rt' == rt && n' == n && p' == p | _ => false
   | .struct es, b => match b with | .struct fs => fs.length == es.length && tyEqRS es fs | _ => false
+  | .init h t, b => match b with | .init h' u => h' == h && (!h || tyEqR t u) | _ => false
 termination_by structural a => a
 /-- pointwise `ts[i].Equals(us[i])` (lengths already compared) -/
 def tyEqL : List Ty → List Ty → Bool
